@@ -5,7 +5,7 @@ Local Open Scope Z_scope.
 (* a token as a connection presents it *)
 Inductive tokref := RInv (inv : N) | RPeer (p : peer) | ROwn.
 Inductive pmop :=
-| OCreate (inv : N)                   (* create_invite; inv = rank of the invitation in the scenario *)
+| OCreate                             (* create_invite; the new invitation is named by its rank among the created ones *)
 | OAccept (b : invite_bytes)          (* accept_invite *)
 | OLookup (tr : tokref) (k : key)     (* get_token_type(token, claimed key) *)
 | OConsume (tr : tokref) (p : peer).  (* a connection on token tr whose remote proved to be p: get_token_type, then
@@ -40,26 +40,25 @@ Definition lookup_obs (o : option ttype) : Z * Z :=
   | Some (TOwned i) => (2, zn i)
   | Some (TInvite i _ _) => (3, zn i)
   end.
-(* one operation on the table, generic in the consumption function (as-is / repaired) *)
-Definition step_with (consume : pm -> ttype -> peer -> option pm) (m : pm) (op : pmop) : pm * Z * Z :=
+(* one operation on the table; next = rank the next created invitation gets (ids are fresh uids) *)
+Definition step (next : N) (m : pm) (op : pmop) : N * pm * Z * Z :=
   match op with
-  | OCreate inv => (create_invite m inv, 1, zn inv)
-  | OAccept b => match accept_invite m b with Some m' => (m', 1, 0) | None => (m, 0, 0) end
-  | OLookup tr k => let '(a, b) := lookup_obs (get_token_type m (tok_of_ref m tr) k) in (m, a, b)
+  | OCreate => (N.succ next, create_invite m next, 1, zn next)
+  | OAccept b => match accept_invite m b with Some m' => (next, m', 1, 0) | None => (next, m, 0, 0) end
+  | OLookup tr k => let '(a, b) := lookup_obs (get_token_type m (tok_of_ref m tr) k) in (next, m, a, b)
   | OConsume tr p =>
       let o := get_token_type m (tok_of_ref m tr) (p_key p) in
       let a := fst (lookup_obs o) in
       match o with
-      | Some (TAllowed _) | None => (m, a, 0)
-      | Some t => match consume m t p with Some m' => (m', a, 1) | None => (m, a, 0) end
+      | Some (TAllowed _) | None => (next, m, a, 0)
+      | Some t => match invite_accepted m t p with Some m' => (next, m', a, 1) | None => (next, m, a, 0) end
       end
   end.
-Fixpoint run_ops_with (consume : pm -> ttype -> peer -> option pm) (m : pm) (ops : list pmop) : list Z :=
+Fixpoint run_ops (next : N) (m : pm) (ops : list pmop) : list Z :=
   match ops with
   | [] => []
-  | op :: r => let '(m', a, b) := step_with consume m op in a :: b :: run_ops_with consume m' r
+  | op :: r => let '(n', m', a, b) := step next m op in a :: b :: run_ops n' m' r
   end.
-Definition run_ops := run_ops_with invite_accepted.
 Definition init_pm (app : N) (me : secret) (me_key : key) : pm :=
   {| pm_app := app; pm_secret := me; pm_tokens := [(TkOwn, TAllowed me_key)] |}.
 
@@ -85,7 +84,7 @@ Fixpoint all_some {A} (l : list (option A)) : option (list A) :=
 Definition run_C19 (c : c19case) : list Z :=
   match c with
   | CHandshake ch lk t r ev => obs_handshake (init_connection ch lk t r ev)
-  | CInvites app me mk ops => run_ops (init_pm app me mk) ops
+  | CInvites app me mk ops => run_ops 1 (init_pm app me mk) ops
   | CTokens secs probes => match all_some (map (probe_token secs) probes) with Some ts => eq_matrix ts | None => [] end
   end.
 
@@ -139,7 +138,7 @@ Definition spec_handshake (ch : N) (t : ttype) (r : remote) (obs : list Z) : boo
 Definition mem_n (x : N) (l : list N) : bool := existsb (N.eqb x) l.
 Definition op_ok (app : N) (seen : list N) (op : pmop) (a b : Z) : bool :=
   match op with
-  | OCreate _ => true
+  | OCreate => true
   | OAccept bs =>
       (* accepted only if it names this application *)
       if Z.eqb a 1 then match bs with InviteFor _ app' _ => N.eqb app' app | Garbage => false end else true
@@ -149,16 +148,16 @@ Definition op_ok (app : N) (seen : list N) (op : pmop) (a b : Z) : bool :=
   | OConsume tr p =>
       match tr with RInv inv => if mem_n inv seen then true else Z.eqb a 0 && Z.eqb b 0 | _ => true end
   end.
-Definition seen_after (seen : list N) (op : pmop) (a : Z) : list N :=
+Definition seen_after (seen : list N) (op : pmop) (a b : Z) : list N :=
   match op with
-  | OCreate inv => inv :: seen
+  | OCreate => Z.to_N b :: seen
   | OAccept (InviteFor inv _ _) => if Z.eqb a 1 then inv :: seen else seen
   | _ => seen
   end.
 Fixpoint spec_ops (app : N) (seen : list N) (ops : list pmop) (obs : list Z) : bool :=
   match ops, obs with
   | [], [] => true
-  | op :: r, a :: b :: obs' => op_ok app seen op a b && spec_ops app (seen_after seen op a) r obs'
+  | op :: r, a :: b :: obs' => op_ok app seen op a b && spec_ops app (seen_after seen op a b) r obs'
   | _, _ => false
   end.
 (* successful consumptions of invitation inv (owned: answer 2, received: answer 3) *)
@@ -218,14 +217,29 @@ Definition spec_C19 (c : c19case) (obs : list Z) : bool :=
   | CTokens secs probes => spec_tokens secs probes obs
   end.
 
+(* registrations of invitation inv as a RECEIVED invitation: accept_invite calls that name this application *)
+Fixpoint accepts (app inv : N) (ops : list pmop) : nat :=
+  match ops with
+  | [] => O
+  | OAccept (InviteFor i a _) :: r => ((if N.eqb i inv && N.eqb a app then 1 else 0) + accepts app inv r)%nat
+  | _ :: r => accepts app inv r
+  end.
+Fixpoint n_creates (ops : list pmop) : N :=
+  match ops with [] => 0%N | OCreate :: r => N.succ (n_creates r) | _ :: r => n_creates r end.
+(* how many times invitation inv gets registered in the table by this history (created ones: ranks 1..n) *)
+Definition registrations (app inv : N) (ops : list pmop) : nat :=
+  ((if (N.leb 1 inv && N.leb inv (n_creates ops))%bool then 1 else 0) + accepts app inv ops)%nat.
+
 (* known-finding classes (known_findings.d/C19.json):
-   1  an invitation is presented for consumption a second time (it is never removed from the
-      in-memory token table: invite_accepted removes it from the wrong token's list)
+   1  (fixed 2163820) an invitation presented a second time was accepted again
    2  two different secrets with the same x25519 public key (they differ only in bits the scalar
-      clamping ignores) ask for each other's token *)
+      clamping ignores) ask for each other's token
+   3  the same invitation is registered more than once (accept_invite called twice with it, or with
+      an invitation this instance created itself) and then presented more than once *)
 Definition known_C19 (c : c19case) : list Z :=
   match c with
-  | CInvites _ _ _ ops => if existsb (fun inv => Nat.ltb 1 (attempts inv ops)) (invs_of ops) then [1] else []
+  | CInvites app _ _ ops =>
+      if existsb (fun inv => Nat.ltb 1 (registrations app inv ops) && Nat.ltb 1 (attempts inv ops)) (invs_of ops) then [3] else []
   | CTokens secs probes =>
       if existsb (fun p => match nth_error secs (fst p), nth_error secs (snd p) with
                            | Some a, Some b => N.eqb (s_pub a) (s_pub b) && negb (N.eqb (s_bytes a) (s_bytes b))
